@@ -38,7 +38,7 @@ FUNCS = ["sqrt", "abs", "negative", "sum", "mean", "concatenate", "square_mul", 
 
 @st.composite
 def lift_case_st(draw):
-    group = draw(st.sampled_from(["arith", "arith", "cmp", "logic", "unary", "func", "reflected"]))
+    group = draw(st.sampled_from(["arith", "arith", "cmp", "logic", "unary", "func", "reflected", "inplace"]))
     nvec = draw(st.integers(1, 3))
     sa, sb = draw(vs.shape_pairs())
     ua, ub, rel = draw(vs.unit_pairs())
@@ -82,7 +82,7 @@ def lift_case_st(draw):
         else:
             case["rhs"] = draw(vs.array_specs(units=[ub], dtypes=[dtb], shape=sb))
         return case
-    case["op"] = draw(st.sampled_from(ARITH if group == "arith" else CMPS))
+    case["op"] = draw(st.sampled_from(ARITH if group in ("arith", "inplace") else CMPS))
     rk = draw(st.sampled_from(["V", "V", "V", "A", "num", "npf", "nd", "Q"]))
     if rk == "V":
         n2 = nvec if draw(st.integers(0, 5)) else draw(st.integers(1, 3))
@@ -186,7 +186,74 @@ def _same_quantity(g, w, lowp_in=False, scale=0.0):
     return None
 
 
+def _iapply(op, x, y):
+    if op == "+":
+        x += y
+    elif op == "-":
+        x -= y
+    elif op == "*":
+        x *= y
+    else:
+        x /= y
+    return x
+
+
+def inplace_lifting(case, r):
+    """v op= rhs must leave v denoting what each component denotes after c op= rhs_c (or both must raise)."""
+    op = case["op"]
+    v = vs.build(case["v"], osyris)
+    ref = vs.build(case["v"], osyris)
+    rhs = vs.build(case["rhs"], osyris)
+    rk = case["rhs"]["k"]
+    nvec = len(case["v"]["comps"])
+    r.label("group_inplace", f"nvec_{nvec}", "rhs_" + rk)
+    if rk == "V" and len(case["rhs"]["comps"]) != nvec:
+        r.label("nvec_mismatch")
+        try:
+            _iapply(op, v, rhs)
+            r.bad(["nvec-mismatch-accepted", "inplace", op], "no exception")
+        except ValueError:
+            pass
+        except Exception as e:
+            r.bad(["nvec-mismatch-wrong-exception", type(e).__name__], repr(e))
+        return
+    r.nontrivial(rk != "V" or nvec < 3)
+    with warnings.catch_warnings(), np.errstate(all="ignore"):
+        warnings.simplefilter("ignore")
+        want, w_exc = [], None
+        for i, c in enumerate(ref._xyz.values()):
+            other = list(rhs._xyz.values())[i].copy() if rk == "V" else rhs
+            try:
+                want.append(_iapply(op, c, other))
+            except Exception as e:
+                w_exc = e
+                break
+        try:
+            res = _iapply(op, v, rhs.copy() if rk == "V" else rhs)
+            g_exc = None
+        except Exception as e:
+            res, g_exc = None, e
+    if (g_exc is None) != (w_exc is None):
+        r.bad(["raise-mismatch", "inplace", op, "dtype=" + case["v"]["comps"][0]["dtype"]],
+              f"v {op}= rhs raised {g_exc!r} but the components {w_exc!r}; {case}")
+        return
+    if g_exc is not None:
+        r.label("both_raise")
+        return
+    if not isinstance(res, osyris.Vector):
+        r.bad(["result-not-vector", "inplace", op], type(res).__name__)
+        return
+    lowp = "float32" in [case["v"]["comps"][0]["dtype"], case["rhs"].get("dtype")]
+    for i, (g, wv) in enumerate(zip(res._xyz.values(), want)):
+        why = _same_quantity(g, wv, lowp)
+        if why:
+            r.bad(["component-differs", "inplace", op], f"after v {op}= rhs component {'xyz'[i]}: {why}; {case}")
+            return
+
+
 def lifting(case, r):
+    if case["group"] == "inplace":
+        return inplace_lifting(case, r)
     group, op = case["group"], case["op"]
     v = vs.build(case["v"], osyris)
     nvec = len(case["v"]["comps"])
@@ -305,6 +372,11 @@ def prod_case_st(draw):
         ub = draw(st.sampled_from(um.ALL_UNITS))
     dta = draw(st.sampled_from(vs.DTYPES))
     dtb = draw(st.sampled_from(vs.DTYPES))
+    if what == "norm" and draw(st.booleans()):
+        # element-wise independence: non-finite entries and a wide dynamic range inside one Vector
+        a = draw(vs.vector_specs(units=[ua], dtypes=["float64"], shape=[draw(st.integers(2, 5))], nvec=nvec, lo=-140, hi=140,
+                                 specials=True))
+        return {"what": what, "a": a, "b": a, "wide": True}
     a = draw(vs.vector_specs(units=[ua], dtypes=[dta], shape=shape, nvec=nvec, lo=-2, hi=2))
     b = draw(vs.vector_specs(units=[ub], dtypes=[dtb], shape=shape, nvec=nvec, lo=-2, hi=2))
     return {"what": what, "a": a, "b": b}
@@ -345,7 +417,9 @@ def products(case, r):
                 if res.unit != a.unit:
                     r.bad(["norm", "not-in-vector-unit"], f"norm unit {res.unit} != {a.unit}")
                 ok = np.abs(got - want) <= rtol * np.abs(want) + 0.0
-                ok |= np.isnan(got) & np.isnan(want)
+                ok |= (np.isnan(got) & np.isnan(want)) | (got == want)
+                if case.get("wide"):
+                    r.label("norm_wide_or_nonfinite")
                 if not np.all(ok):
                     i = int(np.argmin(np.ravel(ok)))
                     sig = ["norm", f"nvec={nvec}", "negative-component" if nvec == 1 else "values"]
